@@ -241,3 +241,8 @@ package ir
 //@   call (*strings.Builder).String assert [C04.render] hasType(instr, "*ssa.Next") ==> out == "Next " + res[0] && arg[0] == dyn(instr, "*ssa.Next").Iter
 //@   call (*strings.Builder).String assert [C04.render] hasType(instr, "*ssa.Panic") ==> out == "Panic " + res[0] && arg[0] == dyn(instr, "*ssa.Panic").X
 
+// ---- C03 / C04: a type is rendered with the import path of its package (two packages may share a name)
+//@ func packageQualifier
+//@   ensures [C03.types] [C04.norm] p != nil ==> result == purecall("(*go/types.Package).Path", p)
+//@   ensures [C03.types] [C04.norm] p == nil ==> result == ""
+
